@@ -163,6 +163,14 @@ Theorem C19_fast_verdict_is_spec_verdict : forall pofx x us out,
   v_gen_fast pofx x us out = v_gen pofx x us out.
 Proof. exact v_gen_fast_eq. Qed.
 
+(* the checker with the per-deviate tolerance (extrapolated deviates below the first cumulative value
+   get the conditioning factor ucond) accepts only outputs within that tolerance of the sampler *)
+Theorem C19_per_deviate_checker_sound : forall tol pofx x us outs,
+  gen_check_tu tol (fst (gen_tables false pofx x)) (snd (gen_tables false pofx x)) us outs = true ->
+  Forall2 (fun u o => exists y, sampler pofx x u = Ok y
+                                /\ (Qabs (y - o) <= tol * ucond (pcum_of pofx x) u)%Q) us outs.
+Proof. exact gen_check_tu_sound. Qed.
+
 (* ================================================================ non-vacuity *)
 Example C19_nonvacuous :
   valid_box 10 35 (-25) 15 /\ valid_cap 359 90 180 /\ unit_dev (1 / 2)
